@@ -154,3 +154,20 @@ def cache0(case):
             bad.append(dict(key=repr(key), max_abs_of_E_M_minus_I=worst, same_for_computed_inverse=worst_c))
     return dict(reproduced=bool(bad), failing=bad[:4], entries_at_import=len(fd.FD_RULES),
                 statement='rules served from FD_RULES as populated at import invert their moment matrix')
+
+
+@reg('C06.intq')
+def intq(case):
+    import numdifftools.finite_difference as fd
+    bad = []
+    for method, n, order in [('forward', 1, 2), ('forward', 1, 3), ('central', 1, 4), ('backward', 2, 2), ('central', 3, 2)]:
+        rule = fd.LogRule(n=n, method=method, order=order)
+        T = len(rule.rule(2.0)); K = T + 3
+        q = np.array([[((7 * k * k + 3 * k) % 13) - 6] for k in range(K)])
+        h = np.array([[2.0 ** -k] for k in range(K)])
+        b = rule._apply(q.astype(float), h, 2.0)[0]
+        for name, qa in (('int64', q.astype(np.int64)), ('float32', q.astype(np.float32))):
+            a = rule._apply(qa, h, 2.0)[0]
+            if not np.allclose(np.asarray(a, dtype=float), b, rtol=1e-6, atol=1e-6 * float(np.max(np.abs(b)))):
+                bad.append(dict(method=method, n=n, order=order, dtype=name, got=np.asarray(a).ravel()[:3].tolist(), expected=b.ravel()[:3].tolist()))
+    return dict(reproduced=bool(bad), failing=bad[:3], statement='LogRule._apply on integer / float32 quotients == on float64 quotients')
